@@ -25,7 +25,8 @@ Proof.
   intros W H. unfold plan in H. apply in_flat_map in H as (l0 & _ & H). unfold entry_cmds in H.
   destruct (find_seg (st_segs st) (lseg l0)) as [s|] eqn:Ef; [|destruct H]. unfold get_from in H.
   destruct (N.eqb_spec (g_idx s) (lseg l0)) as [Hi|]; cbn [andb] in H; [|destruct H].
-  destruct (N.leb_spec (g_first s) (lmc l0)); [|destruct H].
+  destruct (N.leb_spec (g_first s) (lmc l0)); cbn [andb] in H; [|destruct H].
+  destruct (N.ltb_spec (lmc l0 - g_first s) (seg_len s)); [|destruct H].
   apply in_skipn_nth in H as [j Hj]. pose proof (nth_error_Some_lt _ _ _ Hj) as Hlt.
   pose proof Ef as Ef'. apply find_seg_some in Ef' as [Hin _].
   set (m := g_first s + N.of_nat (N.to_nat (lmc l0 - g_first s) + j)).
@@ -34,7 +35,8 @@ Proof.
   exists (L m (g_idx s)). split.
   - split; auto. now apply valid_committed.
   - unfold cmd_at. cbn [lseg]. rewrite (wf_idx_unique _ W s Hin). unfold get_command. cbn [lseg lmc].
-    rewrite N.eqb_refl. destruct (N.leb_spec (g_first s) m); [|unfold m in *; lia]. cbn [andb].
+    rewrite N.eqb_refl. destruct (N.leb_spec (g_first s) m); [|unfold m in *; lia].
+    destruct (N.ltb_spec (m - g_first s) (seg_len s)); [|unfold m, seg_len in *; lia]. cbn [andb].
     rewrite <- Hj. f_equal. unfold m. lia.
 Qed.
 
